@@ -6,7 +6,7 @@ import BpModel.Proofs.Names
 names + own name, joined per language, case-converted per kind).  Proved for style-conforming
 (PascalCase) names: a top-level message / enum / alias appears under exactly its schema name in C,
 Go and Python; a nested message is named by its enclosing names followed by its own
-(`ZooMonkey` in C and Go, `Zoo_Monkey` in Python); a C name prefix ending in `_` contributes its
+(`ZooMonkey` in C and for Go messages, `Zoo_Monkey` in Python and for Go enums), at any nesting depth; a C name prefix ending in `_` contributes its
 PascalCase form in front and changes nothing else.  Field names, API function names, file names,
 macro names (through `snake_case`, not modelled) and the agreement of this model with the three
 formatters are tied by the correspondence check on every generated program.
@@ -19,30 +19,55 @@ theorem C15_toplevel (l : Lang) (k : Kind) (hk : k ≠ .constant) (n : List Char
     defName l k [] [] n = n := by
   cases l <;> cases k <;> simp_all [defName, convert, joinWith, pascalCase_fixed hn]
 
-/-- Python: enclosing names joined by `_`; Go/C messages: concatenated -/
-theorem C15_nested_py (k : Kind) (hk : k ≠ .constant) (outer n : List Char) :
-    defName .py k [] [outer] n = outer ++ '_' :: n := by
-  cases k <;> simp_all [defName, convert, joinWith, delim]
+/-- Python (and Go enums): enclosing names, then the own name, joined by `_` — any depth -/
+theorem C15_nested_py (k : Kind) (hk : k ≠ .constant) (scopes : List (List Char)) (n : List Char) :
+    defName .py k [] scopes n = joinWith ['_'] (scopes ++ [n]) ∧
+    defName .go .enum [] scopes n = joinWith ['_'] (scopes ++ [n]) := by
+  cases k <;> simp_all [defName, convert, delim]
 
-theorem C15_nested_c (outer n : List Char) (hcat : IsPascal (outer ++ n)) :
-    defName .c .message [] [outer] n = outer ++ n ∧ defName .go .message [] [outer] n = outer ++ n := by
-  simp [defName, convert, joinWith, delim, pascalCase_fixed hcat]
+/-- C types and Go messages / aliases: enclosing names followed by the own name, concatenated — any depth -/
+theorem C15_nested_c (k : Kind) (hk : k ≠ .constant) (scopes : List (List Char)) (n : List Char)
+    (hs : ∀ s ∈ scopes, IsPascal s) (hn : IsPascal n) :
+    defName .c k [] scopes n = scopes.flatten ++ n ∧
+    defName .go .message [] scopes n = scopes.flatten ++ n ∧
+    defName .go .alias [] scopes n = scopes.flatten ++ n := by
+  have h := pascalCase_join scopes n hs hn
+  cases k <;> simp_all [defName, convert, delim]
 
-/-- the C name prefix (ending in `_`) is put in front in PascalCase and changes nothing else -/
-theorem C15_prefix (p n : List Char) (hp : '_' ∉ p) (hn : IsPascal n) :
-    defName .c .message (p ++ ['_']) [] n = pascalPart p ++ defName .c .message [] [] n := by
-  have h1 : defName .c .message [] [] n = n := by simp [defName, convert, joinWith, pascalCase_fixed hn]
-  rw [h1]
-  simp only [defName, convert, joinWith, List.nil_append, List.append_assoc, List.singleton_append]
-  exact pascalCase_prefix p n hp hn
+/-- the C name prefix (ending in `_`) is put in front in PascalCase and changes nothing else — any depth -/
+theorem C15_prefix (k : Kind) (hk : k ≠ .constant) (p : List Char) (scopes : List (List Char)) (n : List Char) (hp : '_' ∉ p) :
+    defName .c k (p ++ ['_']) scopes n = pascalPart p ++ defName .c k [] scopes n := by
+  have key : ∀ x : List Char, pascalCase ((p ++ ['_']) ++ x) = pascalPart p ++ pascalCase x := by
+    intro x
+    unfold pascalCase
+    rw [List.append_assoc, List.singleton_append, splitUs_append_us p x hp]
+    simp
+  cases k <;> simp_all [defName, convert]
 
-/-- constants and macros are upper-cased -/
-theorem C15_constant (l : Lang) (n : List Char) : defName l .constant [] [] n = upperCase n := by
-  cases l <;> simp [defName, convert, joinWith]
+/-- constants and macros: the upper-cased prefix in front of the upper-cased name -/
+theorem C15_constant (l : Lang) (pre : List Char) (scopes : List (List Char)) (n : List Char) :
+    defName l .constant pre scopes n = upperCase pre ++ upperCase (joinWith ['_'] (scopes ++ [n])) := by
+  cases l <;> simp [defName, convert, delim, upperCase]
+
+/-- an upper-case name is left as it is -/
+theorem C15_constant_fixed (l : Lang) (n : List Char) (hn : ∀ c ∈ n, isLowerC c = false) :
+    defName l .constant [] [] n = n := by
+  have : upperCase n = n := by
+    unfold upperCase
+    induction n with
+    | nil => rfl
+    | cons c cs ih =>
+      simp only [List.map_cons, toUpperC, hn c (by simp)]
+      rw [ih (fun x hx => hn x (by simp [hx]))]
+      simp
+  cases l <;> simp [defName, convert, joinWith, this]
 
 /-! ### non-vacuity -/
 example : String.ofList (defName .c .message "lib_".toList ["Zoo".toList] "Monkey".toList) = "LibZooMonkey" := by decide
+example : String.ofList (defName .c .enum "my_prefix_".toList ["Zoo".toList, "Monkey".toList] "Kind".toList) = "MyPrefixZooMonkeyKind" := by decide
 example : String.ofList (defName .py .message [] ["Zoo".toList] "Monkey".toList) = "Zoo_Monkey" := by decide
 example : String.ofList (defName .go .enum [] ["Zoo".toList] "Kind".toList) = "Zoo_Kind" := by decide
+example : String.ofList (defName .c .constant "lib_".toList [] "MAX_AGE".toList) = "LIB_MAX_AGE" := by decide
+example : IsPascal "HTTPServer".toList := ⟨'H', "TTPServer".toList, rfl, by decide, by decide, by decide⟩
 
 end Bp.C15
